@@ -36,6 +36,71 @@ def main():
     sys.exit(rc)
 
 
+def shrink(mod, tier, d, budget=45.0):
+    """(only for modules that declare SHRINK_TEXT = True: their verdict depends on the case text alone, not on expectations the
+    generator attached to the case - shrinking the text of a case that carries such expectations would fabricate a failure)
+    delta-debugging over the lines of the case's text (or of its files' texts): a smaller case that still shows a disagreement of
+    the same kind; time-boxed; returns the original disagreement when nothing smaller is found"""
+    case = d["case"]
+    texts = []          # (getter, setter)
+    if isinstance(case.get("text"), str):
+        texts.append(("text", None))
+    elif isinstance(case.get("files"), list):
+        for i, f in enumerate(case["files"]):
+            if isinstance(f, list) and f and isinstance(f[-1], str) and len(f) in (2, 3) and (len(f) == 2 or f[1] == "file"):
+                texts.append(("files", i))
+    if not texts:
+        return d
+    t_end = time.time() + budget
+    want_spec = bool(d.get("spec"))
+    best = d
+
+    def get(c, key):
+        return c["text"] if key[0] == "text" else c["files"][key[1]][-1]
+
+    def put(c, key, val):
+        c2 = json.loads(json.dumps(c))
+        if key[0] == "text":
+            c2["text"] = val
+        else:
+            c2["files"][key[1]][-1] = val
+        return c2
+
+    def still(c):
+        try:
+            r = mod.execute([c], tier)
+        except Exception:
+            return None
+        for d2 in r["disagreements"]:
+            if bool(d2.get("spec")) == want_spec and not d2.get("known"):
+                return d2
+        return None
+
+    for key in texts:
+        lines = get(best["case"], key).split("\n")
+        n = 2
+        while len(lines) >= 2 and time.time() < t_end:
+            chunk = max(1, len(lines) // n)
+            removed = False
+            for i in range(0, len(lines), chunk):
+                if time.time() >= t_end:
+                    break
+                cand = lines[:i] + lines[i + chunk:]
+                c2 = put(best["case"], key, "\n".join(cand))
+                d2 = still(c2)
+                if d2 is not None:
+                    lines, best, removed = cand, d2, True
+                    n = max(n - 1, 2)
+                    break
+            if not removed:
+                if chunk == 1:
+                    break
+                n = min(len(lines), n * 2)
+    if best is not d:
+        best["shrunk_from_lines"] = sum(len(get(d["case"], k).split("\n")) for k in texts)
+    return best
+
+
 def run(mod, pid, tier, seed, args, t0):
     violations = []   # (replay path, suffix)
     known_lines = []
@@ -101,10 +166,13 @@ def run(mod, pid, tier, seed, args, t0):
             n += 1
             if n > 5:
                 break
+            if n == 1 and not args.replay and getattr(mod, "SHRINK_TEXT", False) and not os.environ.get("VERIF_NO_SHRINK"):
+                d = shrink(mod, tier, d)
             path = vlib.write_replay(pid, seed, n, {
                 "property": pid, "broken": d.get("broken", "corr_" + pid), "seed": seed, "tier": tier,
                 "case": d["case"], "impl_observable": d.get("impl"), "model_observable": d.get("model"),
-                "spec_verdict": d.get("spec") or "no-failing-input-found", "known_class": None})
+                "spec_verdict": d.get("spec") or "no-failing-input-found", "known_class": None,
+                "shrunk_from_lines": d.get("shrunk_from_lines")})
             violations.append((path, "" if d.get("spec") else " no-failing-input-found"))
     if proof_problems:
         path = vlib.write_replay(pid, seed, 90, {
@@ -123,7 +191,8 @@ def run(mod, pid, tier, seed, args, t0):
         "coqchk": chk if chk is not None else "not run in this tier (thorough only)",
         "known_findings_hit": sorted(set(known_lines)),
     })
-    vlib.write_evidence(pid, tier, seed, cov, getattr(mod, "ASSUMPTIONS", []), time.time() - t0, len(violations))
+    if not args.replay:      # a replay is a diagnostic run of one case: it does not describe what the check covers
+        vlib.write_evidence(pid, tier, seed, cov, getattr(mod, "ASSUMPTIONS", []), time.time() - t0, len(violations))
     for k in sorted(set(known_lines)):
         print("KNOWN-FINDING: property=%s %s" % (pid, k))
     if args.replay and res:
